@@ -51,7 +51,7 @@ Definition rotate (history : nat) (ks : keyset) (fresh : bytes) : keyset :=
   let keys' := skipn drop (keys ks) ++ [fresh] in
   {| keys := keys';
      id_offset := wrap 32 (id_offset ks + wrap 32 (Z.of_nat drop));
-     primary := wrap 32 (lenZ keys') - 1 |}.
+     primary := wrap 32 (wrap 32 (lenZ keys') - 1) |}.
 
 Definition rotate_many (history : nat) (ks : keyset) (fresh : list bytes) : keyset :=
   fold_left (rotate history) fresh ks.
